@@ -8,6 +8,7 @@ mod errors;
 mod etc1;
 mod game;
 mod language;
+#[cfg(not(mila_verif))]
 mod layered_filesystem;
 mod localization;
 mod lz10;
@@ -29,6 +30,11 @@ pub mod tpl;
 #[cfg(test)]
 mod utils;
 
+#[cfg(mila_verif)]
+pub mod verif_support;
+#[cfg(mila_verif)]
+pub mod verif_hooks;
+
 use endian_aware_io::{EndianAwareReader, EndianAwareWriter};
 
 pub use asset_binary::{AssetBinary, AssetSpec};
@@ -41,6 +47,7 @@ pub use etc1::decode;
 pub use aset::ASetFile;
 pub use game::Game;
 pub use language::Language;
+#[cfg(not(mila_verif))]
 pub use layered_filesystem::LayeredFilesystem;
 pub use lz10::LZ10CompressionFormat;
 pub use lz13::LZ13CompressionFormat;
